@@ -113,7 +113,12 @@ def run(chk):
         driver = driver.replace("-final", "")
         if driver == "controls":
             tau = rng.choice([-31.7, 2000.0, 250.3])      # control times far from the origin as well
-        info = {"kind": "search", "driver": driver, "record_all": rec, "tau": tau, "start": start, "N": N, "subdiv_limit": sub}
+        # the end time handed to compute(): every second case exactly the last grid point start + N dt (computed in the frame of
+        # the run), otherwise a little beyond it; the forced TEMPO / mean-field TEMPO cases end at NEGATIVE times after the shift
+        edge = 0.0 if it % 2 == 0 else 1e-9
+        if it in (0, 2):
+            tau = rng.choice([-5.5, -2.0, -7.3])
+        info = {"kind": "search", "driver": driver, "record_all": rec, "tau": tau, "start": start, "N": N, "subdiv_limit": sub, "end_time_beyond_grid_point": edge}
 
         def build(s0, sh):
             H = lambda t: 0.4 * SX + 0.3 * np.sin(1.7 * (t - sh)) * SZ
@@ -122,7 +127,7 @@ def run(chk):
             rho0 = oqupy.operators.spin_dm("y+")
             if driver == "tempo":
                 sysm = oqupy.TimeDependentSystem(H, gammas=[G], lindblad_operators=[A])
-                d = quiet(oqupy.Tempo(sysm, bath, par, rho0, s0).compute, s0 + N * dt + 1e-9, progress_type="silent")
+                d = quiet(oqupy.Tempo(sysm, bath, par, rho0, s0).compute, s0 + N * dt + edge, progress_type="silent")
                 return list(d.times), np.array(d.states)
             if driver in ("pttempo", "controls", "correlations"):
                 sysm = oqupy.TimeDependentSystem(H, gammas=[G], lindblad_operators=[A])
@@ -147,7 +152,7 @@ def run(chk):
             s = oqupy.TimeDependentSystemWithField(lambda t, a: H(t) + 0.2 * a.real * SZ, gammas=[lambda t: G(t)], lindblad_operators=[lambda t: A(t)])
             mfs = oqupy.MeanFieldSystem([s], field_eom=lambda t, st, a: -0.2 * a + 0.3 * (t - sh) + 0.1 * np.trace(st[0] @ SZ))
             if driver == "meanfield":
-                d = quiet(oqupy.MeanFieldTempo(mfs, [bath], par, [rho0], 0.3 + 0j, s0).compute, s0 + N * dt + 1e-9, progress_type="silent")
+                d = quiet(oqupy.MeanFieldTempo(mfs, [bath], par, [rho0], 0.3 + 0j, s0).compute, s0 + N * dt + edge, progress_type="silent")
             else:
                 pt = quiet(oqupy.pt_tempo_compute, bath, s0, s0 + N * dt + 1e-9, parameters=par, progress_type="silent")
                 d = quiet(oqupy.compute_dynamics_with_field, mfs, 0.3 + 0j, process_tensor_list=[pt], initial_state_list=[rho0], start_time=s0, subdiv_limit=sub, record_all=rec, progress_type="silent")
